@@ -36,93 +36,10 @@ theorem useFlag_all_iff (name : String) (sh : Bool) (st : List Arg) (a : Arg) :
   · rintro ⟨rfl, h2⟩
     simp [splitFind, h2]
 
-theorem unitSwitch_long_none {f : Nat} {l lg : String} {st : List Arg} {c : Ctx} (hu : useFlag lg false st = none) :
-    parse (f + 1) (.unitSwitch l none lg) st c = .error (.missing st) := by
-  simp [parse, parseFlag, flagStep, hu]
-
-theorem unitSwitch_long_some {f : Nat} {l lg : String} {st : List Arg} {c : Ctx} {a : Arg} {st' : List Arg}
-    (hu : useFlag lg false st = some (a, st')) :
-    parse (f + 1) (.unitSwitch l none lg) st c = .ok (st', [(l, .unit)], [(a.1, l)]) := by
-  simp [parse, parseFlag, flagStep, hu]
-
-private theorem sum_left_ok {f : Nat} {l : String} {a b : OP} {st : List Arg} {c : Ctx} {st1 : List Arg} {r1 : Rec} {lg1 : Log}
-    (h : parse f a st c = .ok (st1, r1, lg1)) :
-    parse (f + 1) (.sum l a b) st c = .ok (st1, [(l, .left (.recd r1))], lg1) := by
-  simp only [parse, h]
-
-private theorem sum_left_missing_right_ok {f : Nat} {l : String} {a b : OP} {st : List Arg} {c : Ctx} {m st2 : List Arg} {r2 : Rec} {lg2 : Log}
-    (h : parse f a st c = .error (.missing m)) (hb : parse f b st c = .ok (st2, r2, lg2)) :
-    parse (f + 1) (.sum l a b) st c = .ok (st2, [(l, .right (.recd r2))], lg2) := by
-  simp only [parse, h, hb]
-
-private theorem sum_left_missing_right_err {f : Nat} {l : String} {a b : OP} {st : List Arg} {c : Ctx} {m : List Arg} {e : PErr}
-    (h : parse f a st c = .error (.missing m)) (hb : parse f b st c = .error e) :
-    parse (f + 1) (.sum l a b) st c = .error (combineErrors (.missing m) e) := by
-  simp only [parse, h, hb]
-
-/-- `parse_help` with a help switch that has only a long name (`default_help_switch`): the answer is the help text
-**iff** the argument vector is exactly `[--<long>]`. -/
-theorem parseHelp_help_iff (f : Nat) (hlg : String) (p : OP) (args : List String) :
-    (∃ x, parseHelp (f + 2) none hlg p args = .ok x ∧ (match x with | .help => True | .result .. => False)) ↔
-      args = [flagName hlg false] := by
-  have hself : useFlag hlg false (index [flagName hlg false]) = some ((0, flagName hlg false), []) :=
-    (useFlag_all_iff _ _ _ _).mpr ⟨by simp [index, List.range_succ], rfl⟩
-  unfold parseHelp parseToEmpty
-  cases hu : useFlag hlg false (index args) with
-  | none =>
-    have hl := unitSwitch_long_none (f := f) (l := "h") (c := (helpSum none hlg p).optionNames) hu
-    constructor
-    · rintro ⟨x, hx, hm⟩
-      cases x with
-      | result r lg => exact hm.elim
-      | help =>
-        exfalso
-        revert hx
-        cases hp : parse (f + 1) p (index args) (helpSum none hlg p).optionNames with
-        | error e =>
-          have := sum_left_missing_right_err (l := "help") hl hp
-          unfold helpSum at this ⊢
-          rw [this]
-          cases e <;> simp [combineErrors]
-        | ok t =>
-          obtain ⟨st2, r2, lg2⟩ := t
-          have := sum_left_missing_right_ok (l := "help") hl hp
-          unfold helpSum at this ⊢
-          rw [this]
-          by_cases he : st2.isEmpty = true <;> simp [he]
-    · intro h
-      subst h
-      rw [hself] at hu
-      cases hu
-  | some t =>
-    obtain ⟨a, st'⟩ := t
-    have hl := unitSwitch_long_some (f := f) (l := "h") (c := (helpSum none hlg p).optionNames) hu
-    have hs := sum_left_ok (l := "help") (b := p) hl
-    unfold helpSum at hs ⊢
-    rw [hs]
-    constructor
-    · rintro ⟨x, hx, hm⟩
-      cases x with
-      | result r lg => exact hm.elim
-      | help =>
-        cases st' with
-        | cons b r => simp at hx
-        | nil =>
-          obtain ⟨h1, h2⟩ := (useFlag_all_iff _ _ _ _).mp hu
-          obtain ⟨h3, _⟩ := (index_singleton_iff _ _).mp h1
-          rw [h3, h2]
-    · intro h
-      subst h
-      rw [hself] at hu
-      injection hu with hu
-      injection hu with h1 h2
-      subst h1 h2
-      exact ⟨.help, by simp, trivial⟩
-
 /-! ## help switches with a short name -/
 
 def HelpRes.isHelp : HelpRes → Bool
-  | .help => true
+  | .help _ => true
   | .result .. => false
 
 theorem useFlag_none_singleton {name : String} {sh : Bool} {a : Arg} (h : a.2 ≠ flagName name sh) :
